@@ -36,4 +36,4 @@ static inline void tmcg_mpz_shash_str(mpz_ptr r, str_t *s)
   hash_n = hash_n + 1;
   r->v = h;
 }
-#define MONITOR_STATE hash_n, hash_last_in, hash_last_out, expect_next, last_cand_passes, deriv_ok
+#define MONITOR_STATE hash_n, hash_last_in, hash_last_out, expect_next, last_cand_passes, deriv_ok, ev_n
